@@ -147,13 +147,15 @@ func init() {
 				}
 			}
 			out = append(out, inst("gateway", "VH_C11_cycle", 0, -1, 1), inst("gateway", "VH_C11_cycle", 1, 0, 1))
+			out = append(out, inst("gateway", "VH_C11_timed", 1), inst("gateway", "VH_C11_timed", 3))
 			return out
 		},
-		Asserts: []string{"C11.sleep_request_answered", "C11.nothing_sent_while_asleep", "C11.buffered_delivered_once_then_pingresp", "C11.buffered_in_original_order", "C11.followed_by_pingresp", "C11.asleep_again_after_pingresp"},
-		Reach:   []string{"C11.woke_up", "C11.second_cycle"},
+		Asserts: []string{"C11.sleep_request_answered", "C11.nothing_sent_while_asleep", "C11.buffered_delivered_once_then_pingresp", "C11.buffered_in_original_order", "C11.followed_by_pingresp", "C11.asleep_again_after_pingresp", "C11.timed_delivered_once"},
+		Reach:   []string{"C11.woke_up", "C11.second_cycle", "C11.woke_up_later"},
 		Bounds: map[string]string{
 			"cycle":  "active client, DISCONNECT(duration symbolic > 0), then 1..2 broker events among PUBLISH QoS 0 short / QoS 1 registered / QoS 0 new topic (REGISTER) / QoS 2 short / PINGRESP / UNSUBACK with symbolic IDs, payload byte, retain; PINGREQ; oracle = a twin session that never slept and received the same events",
 			"second": "one more broker PUBLISH after the wake-up PINGRESP (second sleep cycle)",
+			"timed":  "virtual time: one broker PUBLISH QoS 1 / QoS 2 while asleep, wake-up after a symbolic time < 3.5 s with the gateway's retry timers (RetryDelay 1 s, RetryCount 2) running",
 		},
 		Outside: []string{"a broker PUBLISH racing with the PINGREQ on the other receive goroutine (needs pre-emptive interleaving; pktBuffer is unsynchronised - see DESIGN.md)", "more than two buffered events"},
 	})
@@ -175,5 +177,79 @@ func init() {
 			"history": "active for a symbolic time < K, then 1..2 sleep cycles: DISCONNECT(d), d symbolic in 1..3K seconds, wake-up PINGREQ after a symbolic time <= d; or three keep-alive PINGREQs at symbolic intervals <= K while active",
 		},
 		Outside: []string{"longer histories; K outside the listed values; real-time slack"},
+	})
+}
+
+func c26Seqs(thorough bool) []Inst {
+	var out []Inst
+	add := func(a, b, c int64) { out = append(out, inst("gateway", "VH_C26_seq", 60, a, b, c)) }
+	for o := int64(1); o <= 11; o++ {
+		add(o, 0, 0)
+	}
+	// sleep cycles: sleep, sleep again, back to active
+	add(2, 11, 0)
+	add(4, 11, 11)
+	add(11, 12, 7)
+	add(3, 11, 12)
+	add(5, 9, 5)
+	add(1, 6, 2)
+	out = append(out, inst("gateway", "VH_C26_wake_by_connect", 60))
+	if thorough {
+		for a := int64(1); a <= 11; a++ {
+			for b := int64(1); b <= 12; b++ {
+				add(a, b, 0)
+			}
+		}
+		for _, s := range []int64{2, 3, 4, 5} {
+			add(s, 11, 11)
+			add(s, 11, 12)
+			add(s, 9, 11)
+		}
+		add(11, 11, 12)
+		add(11, 12, 11)
+	}
+	return out
+}
+
+func init() {
+	reg(&Spec{
+		ID: "C26", Pkgs: []string{"gateway", "util"}, LoopBound: 4000, ValidateN: 6,
+		Quick:   func() []Inst { return c26Seqs(false) },
+		Thor:    func() []Inst { return c26Seqs(true) },
+		Asserts: []string{"C26.call_returns", "C26.call_succeeds", "C26.broker_sees_conforming_stream", "C26.message_reaches_handler", "C26.burst_reaches_handler", "C26.subscribe_effect", "C26.publish_effect", "C26.unsubscribe_effect", "C26.ping_effect", "C26.connect_effect", "C26.disconnect_effect", "C26.session_survives", "C26.nothing_sent_to_sleeping_client"},
+		Reach:   []string{"C26.ops_done", "C26.slept", "C26.woke_by_connect"},
+		Bounds: map[string]string{
+			"system":    "the real client (real Dial, receive loop, keep-alive loop, transactions), the real gateway session run() and a model MQTT 3.1.1 broker joined by a lossless link in virtual time; client keep-alive 60 s, RetryDelay 1 s; a client in state asleep has its radio off (what is sent to it then is lost)",
+			"sequences": "Connect, 1..3 operations, Disconnect. Operations: Register; Subscribe exact / wildcard / short / predefined (symbolic QoS 0..2) each followed by a broker message on a matching topic (symbolic QoS and payload byte; for the wildcard a burst of two on a not yet registered topic); Register+Publish / Publish short / PublishPredefined (symbolic QoS 0..2, retain, payload byte); Unsubscribe; Ping; Sleep(d = 1..3 s symbolic) with a broker message arriving meanwhile; Connect after a sleep. Quick: every single operation + 6 triples; thorough: all pairs + 14 triples",
+		},
+		Outside: []string{"longer sequences, payloads longer than one byte, loss (C16/C17), concurrent API calls"},
+	})
+}
+
+func init() {
+	reg(&Spec{
+		ID: "C34", Pkgs: []string{"gateway", "util"}, LoopBound: 4000, ValidateN: 4, TimedNative: true,
+		Quick: func() []Inst {
+			var out []Inst
+			for st := int64(0); st <= 6; st++ {
+				out = append(out, inst("gateway", "VH_C34_vanish", st, 2))
+			}
+			return out
+		},
+		Thor: func() []Inst {
+			var out []Inst
+			for st := int64(0); st <= 6; st++ {
+				out = append(out, inst("gateway", "VH_C34_vanish", st, 2), inst("gateway", "VH_C34_vanish", st, 3))
+			}
+			return out
+		},
+		Asserts: []string{"C34.session_ends", "C34.no_panic", "C34.ends_within_bound", "C34.broker_connection_closed"},
+		Reach:   []string{"C34.client_vanishes", "C34.reaped"},
+		Bounds: map[string]string{
+			"session": "the real run() with its real receive loops, connect transaction and sleep pinger in virtual time; model broker that closes the connection 1.5 x keep-alive after the last packet it received (10 s without any CONNECT); keep-alive K = 2 s (thorough also 3 s)",
+			"history": "the client falls silent: before sending anything / after CONNECT with will / while active (last PUBLISH after a symbolic time < K) / asleep for d (symbolic 1..3K s) / woken up after a symbolic time <= d / asleep again for d2 after a wake-up / active again (CONNECT) after a wake-up. Bounds asserted: 10 s grace, connect timeout, 1.5 K, d + 1.5 K (counted from the sleep request or the wake-up), each + 2 connection polls (200 ms)",
+			"polls":   "read-deadline expiries of the fake connections are delivered only after timer events (an expiry that finds the context alive is a no-op in util.ConnWithContext)",
+		},
+		Outside: []string{"longer histories, broker traffic towards the vanished client, K outside the listed values"},
 	})
 }
